@@ -91,7 +91,9 @@ fn guarded_alloc(l: Layout) -> *mut u8 {
         return std::ptr::null_mut();
     }
     let end = at + data_len;
-    let start = (end - l.size()) & !(l.align() - 1);
+    // mode 1: the block ends at the guard (over-runs fault); mode 2: the block starts right
+    // behind the previous block's guard (under-runs fault)
+    let start = if GUARD_MODE.load(Ordering::Relaxed) == 2 { at } else { (end - l.size()) & !(l.align() - 1) };
     GUARDED_BLOCKS.fetch_add(1, Ordering::Relaxed);
     start as *mut u8
 }
